@@ -49,7 +49,7 @@ CFG = {'long_max_vertices': 150,   # the exact oracle is quadratic in the vertex
             "the operands); the model is run with these points and emulated binary64 subtraction, and in exact arithmetic (tag rounded-crossing-changes-matrix "
             "when the two differ). SKIP near-tie:intersection-key-collision: two different points of one segment got the same (segment, rounded distance) key, "
             "so the R-tree's visiting order decides which one an edge keeps. SKIP underflow-range:orientation-inexact: a coordinate below 2^-400 and the model "
-            "(exact orientation) disagrees with the code (robust::orient2d is not exact there, K10); about 1 in 200 000.",
+            "(exact orientation) disagrees with the code (robust::orient2d is not exact there, K10); about 1 in 200 000. Shared shapes added in rounds 9-10: polygons with pairwise disjoint holes whose boxes overlap, multipolygons with an island in another member's lake.",
     "trusted_base": [
         "translator/rs2lean.py + rsexpr.py (statement fragment): regenerates the HasDimensions impl bodies (Line, LineString, Polygon, Rect, Triangle, "
         "MultiLineString::dimensions, MultiPolygon::dimensions) and LineString::is_closed from the Rust source on every run; explicit choices: Vec = List, "
